@@ -277,8 +277,7 @@ theorem modelFloat_spec (neg : Bool) (ip fr : List Char) (exNeg : Bool) (ex : Li
       simp [this]
 
 theorem build_float (s₀ : List Char) (vn : String) (q : Nat) (t rest ip fr ex : List Char) (neg exNeg : Bool)
-    (h : At s₀ q t) (hl : lexNumber t = some (.float neg ip fr exNeg ex, rest))
-    (hfin : floatBits neg ip fr exNeg ex ≠ AGV.F64.infBits) :
+    (h : At s₀ q t) (hl : lexNumber t = some (.float neg ip fr exNeg ex, rest)) :
     Builds s₀ (Pair.mk vn q (q + (t.length - rest.length)) [Pair.mk "number" q (q + (t.length - rest.length)) []])
       (.float (floatBits neg ip fr exNeg ex)) := by
   obtain ⟨hasFr, et, e1, e2, e3, e4, e5, e6⟩ := lexNumber_float_text hl
@@ -292,6 +291,9 @@ theorem build_float (s₀ : List Char) (vn : String) (q : Nat) (t rest ip fr ex 
     rw [hl2, e1, List.take_left']
     rfl
   rw [hk] at ha
-  simp [buildValue, Pair.inner, Pair.rule, envOf, normV] at ha ⊢
-  rw [ha, parseNumber_float_text neg ip fr hasFr et exNeg ex e2 e3 e4 e5 e6, modelFloat_spec, if_neg hfin]
+  simp [buildValue, Pair.inner, Pair.rule, envOf] at ha ⊢
+  rw [ha, parseNumber_float_text neg ip fr hasFr et exNeg ex e2 e3 e4 e5 e6, modelFloat_spec]
+  by_cases hfin : floatBits neg ip fr exNeg ex = AGV.F64.infBits
+  · rw [if_pos hfin, expV_inf (by simp [finV, hfin])]
+  · rw [if_neg hfin, expV_fin (by simp [finV, hfin])]; rfl
 end AGV.Lemmas.PegX
